@@ -290,6 +290,154 @@ async fn run_case(c: &CaseCfg, maxconn: usize, ops: &[String], out: &mut dyn Wri
                 tokio::time::sleep(Duration::from_millis(it.next().unwrap().parse().unwrap())).await;
                 "ok".into()
             }
+            "parkany" => {
+                // the nth time ANY thread reaches <point> it sleeps <ms> (timed parking inside the store)
+                let point = it.next().unwrap().to_string();
+                let ms: u64 = it.next().unwrap().parse().unwrap();
+                let nth: usize = it.next().map(|x| x.parse().unwrap()).unwrap_or(1);
+                let seen = std::sync::Arc::new(std::sync::atomic::AtomicUsize::new(0));
+                bitcask::verif::set_point_callback(Some(std::sync::Arc::new(move |name: &'static str| {
+                    if name == point {
+                        let k = seen.fetch_add(1, std::sync::atomic::Ordering::SeqCst) + 1;
+                        if k == nth {
+                            std::thread::sleep(Duration::from_millis(ms));
+                        }
+                    }
+                })));
+                "ok".into()
+            }
+            "clients" => {
+                // <n> concurrent connections, each issuing <ops> random single-key commands and waiting for
+                // each reply; merges every <ms> (0 = none).  Prints the timed history.
+                let n: u64 = it.next().unwrap().parse().unwrap();
+                let nops: u64 = it.next().unwrap().parse().unwrap();
+                let nkeys: u64 = it.next().unwrap().parse().unwrap();
+                let seed: u64 = it.next().unwrap().parse().unwrap();
+                let merge_ms: u64 = it.next().unwrap().parse().unwrap();
+                let t0 = std::time::Instant::now();
+                let stop = std::sync::Arc::new(std::sync::atomic::AtomicBool::new(false));
+                let merger = if merge_ms > 0 {
+                    let h = srv.handle.clone();
+                    let stop = stop.clone();
+                    Some(tokio::spawn(async move {
+                        while !stop.load(std::sync::atomic::Ordering::SeqCst) {
+                            tokio::time::sleep(Duration::from_millis(merge_ms)).await;
+                            let hh = h.clone();
+                            let _ = tokio::task::spawn_blocking(move || hh.verif_merge()).await;
+                        }
+                    }))
+                } else {
+                    None
+                };
+                let mut tasks = Vec::new();
+                for c in 0..n {
+                    let port = srv.port;
+                    tasks.push(tokio::spawn(async move {
+                        let mut lines: Vec<String> = Vec::new();
+                        let mut s = match TcpStream::connect(("127.0.0.1", port)).await {
+                            Ok(s) => s,
+                            Err(e) => return vec![format!("H c{} 0 connect - = err:{} @0 0", c, e.kind())],
+                        };
+                        let _ = s.set_nodelay(true);
+                        let mut st = seed.wrapping_mul(7919).wrapping_add(c);
+                        let mut next = move || {
+                            st = st.wrapping_add(0x9E3779B97F4A7C15);
+                            let mut z = st;
+                            z = (z ^ (z >> 30)).wrapping_mul(0xBF58476D1CE4E5B9);
+                            z = (z ^ (z >> 27)).wrapping_mul(0x94D049BB133111EB);
+                            z ^ (z >> 31)
+                        };
+                        for i in 0..nops {
+                            let k = format!("k{}", next() % nkeys);
+                            let x = next() % 10;
+                            let (req, show, want_len): (Vec<u8>, String, Option<usize>) = if x < 4 {
+                                let v = format!("c{}i{}{}", c, i, ".".repeat([0usize, 0, 40, 9000][(next() % 4) as usize]));
+                                (format!("*3\r\n$3\r\nSET\r\n${}\r\n{}\r\n${}\r\n{}\r\n", k.len(), k, v.len(), v).into_bytes(),
+                                 format!("set {} {}", hex(k.as_bytes()), hex(v.as_bytes())), Some(5))
+                            } else if x < 9 {
+                                (format!("*2\r\n$3\r\nGET\r\n${}\r\n{}\r\n", k.len(), k).into_bytes(), format!("get {}", hex(k.as_bytes())), None)
+                            } else {
+                                (format!("*2\r\n$3\r\nDEL\r\n${}\r\n{}\r\n", k.len(), k).into_bytes(), format!("del {}", hex(k.as_bytes())), Some(4))
+                            };
+                            let a = t0.elapsed().as_nanos();
+                            if s.write_all(&req).await.is_err() {
+                                lines.push(format!("H c{} {} {} = err:write @{} {}", c, i, show, a, t0.elapsed().as_nanos()));
+                                break;
+                            }
+                            // read one reply
+                            let res: String = match want_len {
+                                Some(n) => {
+                                    let (got, st) = read_n(&mut s, Some(n), 10000).await;
+                                    if st != "ok" {
+                                        format!("err:{}", st)
+                                    } else if got == b"+OK\r\n" {
+                                        "ok".into()
+                                    } else if got == b":1\r\n" {
+                                        "true".into()
+                                    } else if got == b":0\r\n" {
+                                        "false".into()
+                                    } else {
+                                        format!("err:reply:{}", hex(&got))
+                                    }
+                                }
+                                None => {
+                                    // bulk or null: read the header line first
+                                    let mut head = Vec::new();
+                                    let mut status = "ok";
+                                    loop {
+                                        let (b, st) = read_n(&mut s, Some(1), 10000).await;
+                                        if st != "ok" {
+                                            status = st;
+                                            break;
+                                        }
+                                        head.push(b[0]);
+                                        if head.ends_with(b"\r\n") {
+                                            break;
+                                        }
+                                    }
+                                    if status != "ok" {
+                                        format!("err:{}", status)
+                                    } else if head == b"$-1\r\n" {
+                                        "none".into()
+                                    } else if head.first() == Some(&b'$') {
+                                        let len: usize = std::str::from_utf8(&head[1..head.len() - 2]).ok().and_then(|x| x.parse().ok()).unwrap_or(0);
+                                        let (body, st) = read_n(&mut s, Some(len + 2), 10000).await;
+                                        if st == "ok" {
+                                            format!("some:{}", hex(&body[..len]))
+                                        } else {
+                                            format!("err:{}", st)
+                                        }
+                                    } else {
+                                        format!("err:reply:{}", hex(&head))
+                                    }
+                                }
+                            };
+                            let b = t0.elapsed().as_nanos();
+                            let failed = res.starts_with("err");
+                            lines.push(format!("H c{} {} {} = {} @{} {}", c, i, show, res, a, b));
+                            if failed {
+                                break;
+                            }
+                        }
+                        lines
+                    }));
+                }
+                for t in tasks {
+                    match timeout(Duration::from_millis(60000), t).await {
+                        Ok(Ok(lines)) => {
+                            for l in lines {
+                                writeln!(out, "{}", l).unwrap();
+                            }
+                        }
+                        _ => writeln!(out, "H cx 0 client - = err:hang @0 0").unwrap(),
+                    }
+                }
+                stop.store(true, std::sync::atomic::Ordering::SeqCst);
+                if let Some(m) = merger {
+                    let _ = timeout(Duration::from_millis(5000), m).await;
+                }
+                "clientsdone".into()
+            }
             _ => "badop".into(),
         };
         writeln!(out, "{}", res).unwrap();
